@@ -908,3 +908,404 @@ theorem plm_einv (g90e : Bool) (inch : α) (cfg : Config) (pr : EProto α) (s : 
     exact nonMoveBody_inv g90e inch pr _ P V cmd _ _ m horig hdE hproto
 
 end ERP
+
+namespace ERP
+open T Spec
+set_option linter.unusedSectionVars false
+set_option linter.unusedSimpArgs false
+variable {α : Type} [Field α] [LinearOrder α] [IsStrictOrderedRing α] [MathOps α] [MathSpec α]
+
+/-- **The moment before an extruding command is executed**: the filter's output is some prefix
+followed by the command itself, and after the prefix the printer's extruder is where the file
+assumes it, retracted exactly as deep as the file assumes. -/
+theorem recoverBranch_pre (g90e : Bool) (inch : α) (pr : EProto α) (s1 : FState α) (P V : EV α)
+    (cmd : Cmd α) (b : Bool) (c0 dE : α) (m : Mid pr s1 P V c0)
+    (hex : s1.excluding = false) (hdE : dE = cur s1.position.e - c0) (hpos : 0 < dE) (hVfw : V.fw = false)
+    (hV : V.depth = 0 ∨ (V.depth = pr.A ∧ dE = pr.A)) :
+    ∃ pre, (recoverBranch s1 cmd b c0).2 = pre ++ [.orig cmd] ∧
+      (P.outs g90e inch pre).e.current = some c0 ∧ sameFrame (P.outs g90e inch pre).e P.e ∧
+      (P.outs g90e inch pre).depth = V.depth ∧ (P.outs g90e inch pre).fw = V.fw := by
+  have hA := pr.hA
+  have hretr := m.retr
+  have hPc := m.sync hex
+  unfold recoverBranch T.recoverRetractionIfNeeded
+  cases hl : s1.lastRetraction with
+  | none =>
+    simp only [hl, hex, Bool.not_false, if_true]
+    refine ⟨[], rfl, hPc, sameFrame.refl _, ?_, ?_⟩
+    · unfold RetrInv at hretr
+      rw [hl] at hretr
+      cases hf : pr.fw <;> simp only [hf] at hretr
+      · rw [EV.outs_nil, hretr.2.2.1, hretr.2.2.2]
+      · rw [EV.outs_nil, hretr.1, hretr.2.1]
+    · unfold RetrInv at hretr
+      rw [hl] at hretr
+      cases hf : pr.fw <;> simp only [hf] at hretr
+      · rw [EV.outs_nil, hretr.1, hretr.2.1]
+      · rw [EV.outs_nil, hretr.2.2.1, hretr.2.2.2]
+  | some lr =>
+    simp only [hl, hex, Bool.false_eq_true, if_false, T.recoverRetraction]
+    have hposid := addCommands_pos_id { lr with allowCombine := false } (-1) s1.position m.ok
+    generalize hac : T.addCommands { lr with allowCombine := false } (-1) s1.position = ac at hposid ⊢
+    obtain ⟨p, cmds⟩ := ac
+    simp only at hposid
+    subst hposid
+    unfold RetrInv at hretr
+    rw [hl] at hretr
+    cases hf : pr.fw
+    · simp only [hf] at hretr
+      obtain ⟨pf, vf, lfw, lam, pd, vd⟩ := hretr
+      cases ho : lr.recoverExcluded
+      · rw [ho] at vd
+        simp only [Bool.false_eq_true, if_false] at vd
+        simp only [ho, Bool.false_and, Bool.false_eq_true, if_false, List.nil_append]
+        exact ⟨[], rfl, hPc, sameFrame.refl _, by rw [EV.outs_nil, pd, vd], by rw [EV.outs_nil, pf, vf]⟩
+      · rw [ho] at vd
+        simp only [if_true] at vd
+        simp only [ho, lfw, Bool.not_false, Bool.and_self, if_true]
+        have hev := addCommands_ev g90e inch { lr with allowCombine := false } (-1) pr.A s1.position P lfw lam
+          m.ok m.abs m.frame
+        rw [hac] at hev
+        simp only at hev ⊢
+        rw [insertBeforeLast_snoc]
+        refine ⟨cmds ++ [Out.g92e (n2lAbs s1.position.e c0)], rfl, ?_⟩
+        rw [EV.outs_append, hev]
+        simp only [EV.outs, List.foldl_cons, List.foldl_nil, EV.out]
+        have hfr1 : sameFrame ((P.jump (cur s1.position.e + pr.A * -1)).goto (cur s1.position.e)).e s1.position.e :=
+          ((EV.goto_frame _ _).trans (EV.jump_frame _ _)).trans m.frame
+        rw [EV.setE_n2lAbs _ _ c0 hfr1 m.ok.2]
+        refine ⟨rfl, (EV.jump_frame _ _).trans ((EV.goto_frame _ _).trans (EV.jump_frame _ _)), ?_, ?_⟩
+        · rw [EV.jump_depth, vd]
+          apply EV.goto_depth_ge
+          simp only [EV.jump_depth, pd, EV.cur_jump]
+          linarith
+        · simp only [EV.jump_fw, EV.goto_fw, pf, vf]
+    · simp only [hf] at hretr
+      obtain ⟨pd, vd, lfw, pf, vf⟩ := hretr
+      have ho : lr.recoverExcluded = true := by
+        rw [hVfw] at vf
+        cases h : lr.recoverExcluded <;> simp [h] at vf ⊢
+      simp only [ho, lfw, Bool.not_true, Bool.and_false, Bool.false_eq_true, if_false, if_true]
+      have hev := addCommands_ev_fw g90e inch { lr with allowCombine := false } (-1) s1.position P lfw
+      rw [hac] at hev
+      simp only at hev ⊢
+      refine ⟨cmds, rfl, ?_⟩
+      rw [hev]
+      refine ⟨hPc, sameFrame.refl _, ?_, ?_⟩
+      · show P.depth = V.depth; rw [pd, vd]
+      · simp [hVfw]
+
+end ERP
+
+namespace ERP
+open T Spec
+set_option linter.unusedSectionVars false
+set_option linter.unusedSimpArgs false
+variable {α : Type} [Field α] [LinearOrder α] [IsStrictOrderedRing α] [MathOps α] [MathSpec α]
+
+/-- **An extruding command forwarded outside regions** is executed by the printer with its
+extruder exactly where the file assumes it (so it pushes exactly the file's amount) and at the
+file's retraction depth; whatever precedes it in the filter's output is the owed recovery. -/
+theorem plm_extrude_pre (g90e : Bool) (inch : α) (cfg : Config) (pr : EProto α) (s : FState α) (P V : EV α)
+    (cmd : Cmd α) (ep fr fz : Option α) (xy : List (Option α × Option α)) (h : WF s)
+    (hinv : EInv pr s P V)
+    (hproto : if T.isMoveOf fz xy then MoveOK V (T.deltaEOf s ep) else NonMoveOK pr V (T.deltaEOf s ep))
+    (hpre : s.excluding = false)
+    (hpost : (T.processLinearMoves cfg s cmd ep fr fz xy).1.excluding = false)
+    (hpos : 0 < T.deltaEOf s ep) :
+    ∃ pre, fwdOf cmd (T.processLinearMoves cfg s cmd ep fr fz xy).2 = pre ++ [.orig cmd] ∧
+      (P.outs g90e inch pre).e = V.e ∧ (P.outs g90e inch pre).depth = V.depth ∧
+      (P.outs g90e inch pre).fw = V.fw := by
+  obtain ⟨e1, e2, e3, e4⟩ := applyEZF_e s ep fr fz
+  have hs1 := applyEZF_WF s ep fr fz h
+  have hcur := h.pos.2.2.2.cur_eq
+  have m : Mid pr (T.applyEZF s ep fr fz) P V (cur s.position.e) := by
+    refine ⟨?_, ?_, ?_, hs1.pos.2.2.2, ?_, ?_, ?_⟩
+    · rw [← hinv.track]; exact hcur
+    · rw [← hinv.track, e1]; exact (setLog_frame _ _).symm
+    · rw [e1, (setLog_frame s.position.e ep).2.2.1]; exact hinv.abs
+    · rw [e1]; exact hinv.frame.trans (setLog_frame _ _).symm
+    · intro he; rw [e2] at he; rw [hinv.sync he]; exact hcur
+    · rw [e3]; exact hinv.retr
+  have hdE : T.deltaEOf s ep = cur (T.applyEZF s ep fr fz).position.e - cur s.position.e := by
+    rw [e1]; exact deltaEOf_eq s ep
+  have fin : ∀ (s1 : FState α) (b : Bool), Mid pr s1 P V (cur s.position.e) → s1.excluding = false →
+      T.deltaEOf s ep = cur s1.position.e - cur s.position.e → V.fw = false →
+      (V.depth = 0 ∨ (V.depth = pr.A ∧ T.deltaEOf s ep = pr.A)) →
+      ∃ pre, (recoverBranch s1 cmd b (cur s.position.e)).2 = pre ++ [.orig cmd] ∧
+        (P.outs g90e inch pre).e = V.e ∧ (P.outs g90e inch pre).depth = V.depth ∧
+        (P.outs g90e inch pre).fw = V.fw := by
+    intro s1 b m1 hx1 hd1 hvf hvd
+    obtain ⟨pre, k1, k2, k3, k4, k5⟩ :=
+      recoverBranch_pre g90e inch pr s1 P V cmd b _ _ m1 hx1 hd1 hpos hvf hvd
+    refine ⟨pre, k1, ?_, k4, k5⟩
+    apply axis_eq_of
+    · exact (k3.trans hinv.frame).trans (by rw [hinv.track]; exact sameFrame.refl _)
+    · rw [k2, ← hinv.track]; exact hcur.symm
+  simp only [T.processLinearMoves, fwdOf_toResult, toResult_fst] at hpost ⊢
+  by_cases hm : T.isMoveOf fz xy = true
+  · simp only [hm, if_true] at hproto
+    simp only [hm, Bool.not_true, Bool.false_eq_true, if_false] at hpost ⊢
+    obtain ⟨hV0, hVfw⟩ := hproto.2 hpos
+    have hloop := isAnyLoop_pos xy (T.applyEZF s ep fr fz) false
+    have hw2 := (isAnyLoop_WF xy (T.applyEZF s ep fr fz) false hs1).1
+    unfold T.moveBody at hpost ⊢
+    generalize T.isAnyLoop (T.applyEZF s ep fr fz) xy false = rr at *
+    obtain ⟨s2, anyEx⟩ := rr
+    simp only at hloop hpost hw2 ⊢
+    have he2 : s2.position.e = (T.applyEZF s ep fr fz).position.e := by rw [hloop]
+    have hx2' : s2.excluding = (T.applyEZF s ep fr fz).excluding := by rw [hloop]
+    have hx2 : s2.excluding = false := by rw [hx2', e2]; exact hpre
+    have hr2 : s2.lastRetraction = (T.applyEZF s ep fr fz).lastRetraction := by rw [hloop]
+    have m2 : Mid pr s2 P V (cur s.position.e) := m.congr he2 hx2' hr2
+    clear hloop
+    cases anyEx with
+    | true =>
+      exfalso
+      simp only [if_true] at hpost
+      have hex := (processExcludedMove_WF cfg s2 cmd (T.deltaEOf s ep) hw2).2
+      generalize T.processExcludedMove cfg s2 cmd (T.deltaEOf s ep) = r2 at *
+      split at hpost
+      · simp only at hpost; rw [hex] at hpost; cases hpost
+      · rw [hex] at hpost; cases hpost
+    | false =>
+      have hne : (T.deltaEOf s ep == 0) = false := by
+        have : T.deltaEOf s ep ≠ 0 := ne_of_gt hpos
+        simpa using this
+      simp only [Bool.false_eq_true, if_false, hx2, hne, Bool.not_false, if_true]
+      have := fin s2 false m2 hx2 (by rw [he2]; exact hdE) hVfw (Or.inl hV0)
+      unfold recoverBranch at this
+      dsimp only at this
+      exact this
+  · have hm' : T.isMoveOf fz xy = false := by simpa using hm
+    simp only [hm', Bool.false_eq_true, if_false] at hproto
+    simp only [hm', Bool.not_false, if_true] at hpost ⊢
+    obtain ⟨hVfw, hV⟩ := hproto.2 hpos
+    have hx1 : (T.applyEZF s ep fr fz).excluding = false := by rw [e2]; exact hpre
+    have hnn : ¬ (T.deltaEOf s ep < 0) := not_lt.mpr (le_of_lt hpos)
+    have hnm : T.processNonMove (T.applyEZF s ep fr fz) cmd (T.deltaEOf s ep) =
+        T.recoverRetractionIfNeeded (T.applyEZF s ep fr fz) cmd true := by
+      unfold T.processNonMove; simp only [hnn, hpos, if_false, if_true]
+    have hexr : (T.recoverRetractionIfNeeded (T.applyEZF s ep fr fz) cmd true).1.excluding = false := by
+      unfold T.recoverRetractionIfNeeded
+      cases (T.applyEZF s ep fr fz).lastRetraction <;> simp [hx1, T.recoverRetraction]
+    have heq : T.nonMoveBody (T.applyEZF s ep fr fz) cmd (T.deltaEOf s ep) (cur s.position.e) =
+        recoverBranch (T.applyEZF s ep fr fz) cmd true (cur s.position.e) := by
+      unfold T.nonMoveBody recoverBranch
+      rw [hnm]
+      cases (T.applyEZF s ep fr fz).lastRetraction with
+      | none => rfl
+      | some lr => simp only [hpos, decide_true, Bool.true_and, hexr, Bool.not_false]
+    rw [heq]
+    exact fin _ true m hx1 hdE hVfw hV
+
+end ERP
+
+namespace ERP
+open T Spec
+set_option linter.unusedSectionVars false
+set_option linter.unusedSimpArgs false
+variable {α : Type} [Field α] [LinearOrder α] [IsStrictOrderedRing α] [MathOps α] [MathSpec α]
+
+/-- a retraction that is not forwarded as such pushes nothing (it pulls `A`, or is dropped) -/
+theorem retractBranch_nopush (g90e : Bool) (inch : α) (pr : EProto α) (s1 : FState α) (P V : EV α)
+    (cmd : Cmd α) (c0 dE : α) (r : Retraction α) (m : Mid pr s1 P V c0)
+    (hfw : pr.fw = false) (hneg : dE < 0) (hV0 : V.depth = 0)
+    (r1 : r.firmwareRetract = false) (r2 : r.extrusionAmount = some (-dE)) (r3 : r.originalCommand = cmd)
+    (hno : Out.orig cmd ∉ (retractBranch s1 r).2) :
+    (P.outs g90e inch (retractBranch s1 r).2).fil ≤ P.fil := by
+  have hA := pr.hA
+  have hretr := m.retr
+  unfold retractBranch T.recordRetraction at hno ⊢
+  cases hl : s1.lastRetraction with
+  | none =>
+    simp only [hl] at hno ⊢
+    by_cases hex : s1.excluding = true
+    · simp only [hex, if_true] at hno ⊢
+      have hev := addCommands_ev g90e inch r 1 (-dE) s1.position P r1 r2 m.ok m.abs m.frame
+      generalize T.addCommands r 1 s1.position = ac at *
+      obtain ⟨p, cmds⟩ := ac
+      simp only at hev hno ⊢
+      simp only [hex, Bool.not_true, Bool.and_false, Bool.false_eq_true, if_false, hev]
+      rw [EV.goto_fil]
+      simp only [EV.jump_fil, EV.cur_jump]
+      linarith
+    · have hex' : s1.excluding = false := by simpa using hex
+      simp only [hex', Bool.false_eq_true, if_false, List.isEmpty_cons, Bool.false_and, r3] at hno
+      exact absurd (List.mem_singleton.mpr rfl) hno
+  | some lr =>
+    simp only [hl] at hno ⊢
+    unfold RetrInv at hretr
+    simp only [hfw, hl] at hretr
+    obtain ⟨pf, vf, lfw, lam, pd, vd⟩ := hretr
+    have howed : lr.recoverExcluded = true := by
+      cases ho : lr.recoverExcluded with
+      | true => rfl
+      | false => rw [ho] at vd; simp at vd; rw [hV0] at vd; exact absurd vd.symm (ne_of_gt hA)
+    simp only [howed, if_true, lfw, Bool.not_false, List.isEmpty_nil, Bool.true_and]
+    by_cases hex : s1.excluding = true
+    · simp only [hex, Bool.not_true, Bool.false_eq_true, if_false, EV.outs_nil]; exact le_refl _
+    · have hex' : s1.excluding = false := by simpa using hex
+      simp only [hex', Bool.not_false, if_true, EV.outs, List.foldl_cons, List.foldl_nil, EV.out]
+      exact le_refl _
+
+end ERP
+
+namespace ERP
+open T Spec
+set_option linter.unusedSectionVars false
+set_option linter.unusedSimpArgs false
+variable {α : Type} [Field α] [LinearOrder α] [IsStrictOrderedRing α] [MathOps α] [MathSpec α]
+
+/-- **Suppressed commands push no filament.**  If the filter does not forward a G0–G3 command
+itself, what it sends instead never advances the filament. -/
+theorem plm_nopush (g90e : Bool) (inch : α) (cfg : Config) (pr : EProto α) (s : FState α) (P V : EV α)
+    (cmd : Cmd α) (ep fr fz : Option α) (xy : List (Option α × Option α)) (h : WF s)
+    (hinv : EInv pr s P V) (hpn : PendingNeutral s)
+    (hproto : if T.isMoveOf fz xy then MoveOK V (T.deltaEOf s ep) else NonMoveOK pr V (T.deltaEOf s ep))
+    (hno : Out.orig cmd ∉ fwdOf cmd (T.processLinearMoves cfg s cmd ep fr fz xy).2) :
+    (P.outs g90e inch (fwdOf cmd (T.processLinearMoves cfg s cmd ep fr fz xy).2)).fil ≤ P.fil := by
+  obtain ⟨e1, e2, e3, e4⟩ := applyEZF_e s ep fr fz
+  have hs1 := applyEZF_WF s ep fr fz h
+  have hcur := h.pos.2.2.2.cur_eq
+  have hn := hinv.retr.nonneg
+  have m : Mid pr (T.applyEZF s ep fr fz) P V (cur s.position.e) := by
+    refine ⟨?_, ?_, ?_, hs1.pos.2.2.2, ?_, ?_, ?_⟩
+    · rw [← hinv.track]; exact hcur
+    · rw [← hinv.track, e1]; exact (setLog_frame _ _).symm
+    · rw [e1, (setLog_frame s.position.e ep).2.2.1]; exact hinv.abs
+    · rw [e1]; exact hinv.frame.trans (setLog_frame _ _).symm
+    · intro he; rw [e2] at he; rw [hinv.sync he]; exact hcur
+    · rw [e3]; exact hinv.retr
+  have hdE : T.deltaEOf s ep = cur (T.applyEZF s ep fr fz).position.e - cur s.position.e := by
+    rw [e1]; exact deltaEOf_eq s ep
+  have hpn1 : PendingNeutral (T.applyEZF s ep fr fz) := by
+    intro e he; rw [e4] at he; exact hpn e he
+  -- the recovery branch always forwards the command
+  have rec_mem : ∀ (s1 : FState α) (b : Bool), Mid pr s1 P V (cur s.position.e) → s1.excluding = false →
+      T.deltaEOf s ep = cur s1.position.e - cur s.position.e → 0 < T.deltaEOf s ep → V.fw = false →
+      (V.depth = 0 ∨ (V.depth = pr.A ∧ T.deltaEOf s ep = pr.A)) →
+      Out.orig cmd ∈ (recoverBranch s1 cmd b (cur s.position.e)).2 := by
+    intro s1 b m1 hx1 hd1 hp1 hvf hvd
+    obtain ⟨pre, k1, _⟩ := recoverBranch_pre g90e inch pr s1 P V cmd b _ _ m1 hx1 hd1 hp1 hvf hvd
+    rw [k1]; simp
+  simp only [T.processLinearMoves, fwdOf_toResult] at hno ⊢
+  by_cases hm : T.isMoveOf fz xy = true
+  · simp only [hm, if_true] at hproto
+    simp only [hm, Bool.not_true, Bool.false_eq_true, if_false] at hno ⊢
+    have hloop := isAnyLoop_pos xy (T.applyEZF s ep fr fz) false
+    unfold T.moveBody at hno ⊢
+    generalize T.isAnyLoop (T.applyEZF s ep fr fz) xy false = rr at *
+    obtain ⟨s2, anyEx⟩ := rr
+    simp only at hloop hno ⊢
+    have he2 : s2.position.e = (T.applyEZF s ep fr fz).position.e := by rw [hloop]
+    have hx2' : s2.excluding = (T.applyEZF s ep fr fz).excluding := by rw [hloop]
+    have hr2 : s2.lastRetraction = (T.applyEZF s ep fr fz).lastRetraction := by rw [hloop]
+    have hpn2 : PendingNeutral s2 := by intro e he; rw [hloop] at he; exact hpn1 e he
+    have m2 : Mid pr s2 P V (cur s.position.e) := m.congr he2 hx2' hr2
+    clear hloop
+    have hnn : ¬ (T.deltaEOf s ep < 0) := not_lt.mpr hproto.1
+    cases anyEx with
+    | true =>
+      simp only [if_true] at hno ⊢
+      -- only the enter script can be sent
+      have key : (P.outs g90e inch (T.processExcludedMove cfg s2 cmd (T.deltaEOf s ep)).2) = P := by
+        unfold T.processExcludedMove T.enterExcludedRegion
+        by_cases hex : s2.excluding = true
+        · simp only [hex, Bool.not_true, Bool.false_eq_true, if_false, hnn, EV.outs_nil]
+        · have hex' : s2.excluding = false := by simpa using hex
+          simp only [hex', Bool.not_false, if_true, Bool.false_eq_true, if_false, hnn]
+          cases cfg.enteringExcludedRegionGcode with
+          | none => rfl
+          | some L =>
+            apply outs_neutral
+            intro o ho
+            obtain ⟨t, _, rfl⟩ := List.mem_map.mp ho
+            intro v; rfl
+      rw [key]
+    | false =>
+      simp only [Bool.false_eq_true, if_false] at hno ⊢
+      by_cases hex : s2.excluding = true
+      · simp only [hex, if_true]
+        rw [exit_ev g90e inch cfg s2 P hpn2 hex m2.frame m2.ok hn.1]
+        exact le_refl _
+      · have hex' : s2.excluding = false := by simpa using hex
+        simp only [hex', Bool.false_eq_true, if_false] at hno ⊢
+        by_cases hd : T.deltaEOf s ep = 0
+        · have hd' : (T.deltaEOf s ep == 0) = true := by simpa using hd
+          simp only [hd', Bool.not_true, Bool.false_eq_true, if_false] at hno
+          exact absurd (List.mem_singleton.mpr rfl) hno
+        · have hd' : (T.deltaEOf s ep == 0) = false := by simpa using hd
+          simp only [hd', Bool.not_false, if_true] at hno
+          have hpos : 0 < T.deltaEOf s ep := lt_of_le_of_ne hproto.1 (Ne.symm hd)
+          obtain ⟨hV0, hVfw⟩ := hproto.2 hpos
+          have := rec_mem s2 false m2 hex' (by rw [he2]; exact hdE) hpos hVfw (Or.inl hV0)
+          unfold recoverBranch at this
+          dsimp only at this
+          exact absurd this hno
+  · have hm' : T.isMoveOf fz xy = false := by simpa using hm
+    simp only [hm', Bool.false_eq_true, if_false] at hproto
+    simp only [hm', Bool.not_false, if_true] at hno ⊢
+    rcases lt_trichotomy (T.deltaEOf s ep) 0 with hneg | hz | hpos
+    · obtain ⟨hfw, hV0, hlen⟩ := hproto.1 hneg
+      have hnp : ¬ (0 < T.deltaEOf s ep) := not_lt.mpr (le_of_lt hneg)
+      have hnmb : T.nonMoveBody (T.applyEZF s ep fr fz) cmd (T.deltaEOf s ep) (cur s.position.e) =
+          T.processNonMove (T.applyEZF s ep fr fz) cmd (T.deltaEOf s ep) := by
+        unfold T.nonMoveBody
+        cases (T.applyEZF s ep fr fz).lastRetraction with
+        | none => rfl
+        | some lr => simp only [hnp, decide_false, Bool.false_and, Bool.false_eq_true, if_false]
+      rw [hnmb, processNonMove_neg _ cmd _ hneg] at hno ⊢
+      exact retractBranch_nopush g90e inch pr _ P V cmd _ _ _ m hfw hneg hV0 rfl rfl rfl hno
+    · have hnm : T.processNonMove (T.applyEZF s ep fr fz) cmd (T.deltaEOf s ep) =
+          (T.applyEZF s ep fr fz, if !(T.applyEZF s ep fr fz).excluding then [.orig cmd] else []) := by
+        unfold T.processNonMove
+        rw [hz]
+        simp only [lt_irrefl, if_false]
+        split <;> rfl
+      have hnmb : T.nonMoveBody (T.applyEZF s ep fr fz) cmd (T.deltaEOf s ep) (cur s.position.e) =
+          T.processNonMove (T.applyEZF s ep fr fz) cmd (T.deltaEOf s ep) := by
+        unfold T.nonMoveBody
+        cases (T.applyEZF s ep fr fz).lastRetraction with
+        | none => rfl
+        | some lr => rw [hz]; simp only [lt_irrefl, decide_false, Bool.false_and, Bool.false_eq_true, if_false]
+      rw [hnmb, hnm] at hno ⊢
+      by_cases hex : (T.applyEZF s ep fr fz).excluding = true
+      · simp only [hex, Bool.not_true, Bool.false_eq_true, if_false, EV.outs_nil]; exact le_refl _
+      · have hex' : (T.applyEZF s ep fr fz).excluding = false := by simpa using hex
+        simp only [hex', Bool.not_false, if_true] at hno
+        exact absurd (List.mem_singleton.mpr rfl) hno
+    · obtain ⟨hVfw, hV⟩ := hproto.2 hpos
+      have hnn : ¬ (T.deltaEOf s ep < 0) := not_lt.mpr (le_of_lt hpos)
+      have hnm : T.processNonMove (T.applyEZF s ep fr fz) cmd (T.deltaEOf s ep) =
+          T.recoverRetractionIfNeeded (T.applyEZF s ep fr fz) cmd true := by
+        unfold T.processNonMove; simp only [hnn, hpos, if_false, if_true]
+      by_cases hex : (T.applyEZF s ep fr fz).excluding = true
+      · obtain ⟨k1, _⟩ := recover_excluding_inv pr _ P V cmd _ _ m hex hdE hpos hVfw hV
+        have hexr : (T.recoverRetractionIfNeeded (T.applyEZF s ep fr fz) cmd true).1.excluding = true := by
+          unfold T.recoverRetractionIfNeeded
+          cases (T.applyEZF s ep fr fz).lastRetraction <;> simp [hex]
+        have : (T.nonMoveBody (T.applyEZF s ep fr fz) cmd (T.deltaEOf s ep) (cur s.position.e)).2 = [] := by
+          unfold T.nonMoveBody
+          rw [hnm]
+          cases (T.applyEZF s ep fr fz).lastRetraction with
+          | none => exact k1
+          | some lr =>
+            simp only [hexr, Bool.not_true, Bool.and_false, Bool.false_and, Bool.false_eq_true, if_false]
+            exact k1
+        rw [this, EV.outs_nil]
+      · have hex' : (T.applyEZF s ep fr fz).excluding = false := by simpa using hex
+        have hexr : (T.recoverRetractionIfNeeded (T.applyEZF s ep fr fz) cmd true).1.excluding = false := by
+          unfold T.recoverRetractionIfNeeded
+          cases (T.applyEZF s ep fr fz).lastRetraction <;> simp [hex', T.recoverRetraction]
+        have heq : T.nonMoveBody (T.applyEZF s ep fr fz) cmd (T.deltaEOf s ep) (cur s.position.e) =
+            recoverBranch (T.applyEZF s ep fr fz) cmd true (cur s.position.e) := by
+          unfold T.nonMoveBody recoverBranch
+          rw [hnm]
+          cases (T.applyEZF s ep fr fz).lastRetraction with
+          | none => rfl
+          | some lr => simp only [hpos, decide_true, Bool.true_and, hexr, Bool.not_false]
+        rw [heq] at hno
+        exact absurd (rec_mem _ true m hex' hdE hpos hVfw hV) hno
+
+end ERP
